@@ -868,7 +868,7 @@ def build_cases(docs, quick, r):
 
   # G4: document_lang
   for i, (name, typ, _) in enumerate(docs):
-    for lang in ("es-419", "fr", "zh-Hant-TW", None):
+    for lang in ("es-419", "fr", "zh-Hant-TW", "", None):
       for filters in ((), ("lcd",), ("c19_a",)):
         if quick and name.startswith("res-") and filters:
           continue
